@@ -24,7 +24,7 @@ pub fn c02(ctx: &mut Ctx) {
     run_cfg_spaces(ctx, spaces, |p, _, l| {
         roundtrip_case(l, "roundtrip", p, Variant::PLAIN);
         // the same configuration built with a size query and a scratch write after every builder call
-        roundtrip_case(l, "roundtrip-probed", p, Variant::PROBED);
+        roundtrip_case(l, "roundtrip-probed", p, Variant { reset: true, ..Variant::PROBED });
     });
     ctx.require_hit("round-trip-equal");
 }
@@ -38,7 +38,7 @@ pub fn c03(ctx: &mut Ctx) {
         // alternate the borrowed and the owned item APIs so both writers' inputs are covered
         let var = Variant::new(idx % 5 == 4, Wrap::None);
         roundtrip_case(l, "roundtrip", p, var);
-        roundtrip_case(l, "roundtrip-probed", p, Variant { probe: true, owned: idx % 5 != 4, wrap: Wrap::None })
+        roundtrip_case(l, "roundtrip-probed", p, Variant { probe: true, reset: true, owned: idx % 5 != 4, wrap: Wrap::None })
     });
     ctx.require_hit("round-trip-equal");
 }
@@ -52,7 +52,7 @@ pub fn c04(ctx: &mut Ctx) {
     run_cfg_spaces(ctx, spaces, |p, idx, l| {
         let var = Variant::new(idx % 7 == 3, Wrap::None);
         roundtrip_case(l, "roundtrip", p, var);
-        roundtrip_case(l, "roundtrip-probed", p, Variant { probe: true, owned: idx % 7 != 3, wrap: Wrap::None })
+        roundtrip_case(l, "roundtrip-probed", p, Variant { probe: true, reset: true, owned: idx % 7 != 3, wrap: Wrap::None })
     });
     ctx.require_hit("round-trip-equal");
 }
@@ -67,10 +67,17 @@ pub fn c05(ctx: &mut Ctx) {
         let fci = if idx % 2 == 0 { Fci::Fir(vec![]) } else { Fci::Sli(vec![]) };
         Pkt::Fb { kind: Kind::Payload, sender: 1, media: 2, fci, pad: if idx < 2 { 0 } else { 4 } }
     }));
+    // FIR maps around the largest entry count a packet can carry (32 766): whatever the builder accepts there must
+    // still parse back
+    spaces.push(gens::CfgSpace::new("fb-fir-at-the-size-limit", 5, |idx| {
+        let k = 32_764 + idx as u32;
+        let e = (0..k).map(|i| ((i << 24) ^ i.wrapping_mul(0x0001_0003), (i % 251) as u8)).collect();
+        Pkt::Fb { kind: Kind::Payload, sender: 1, media: 2, fci: Fci::Fir(e), pad: 0 }
+    }));
     run_cfg_spaces(ctx, spaces, |p, idx, l| {
         let var = Variant::new(idx % 2 == 1, Wrap::None);
         roundtrip_case(l, "roundtrip", p, var);
-        roundtrip_case(l, "roundtrip-probed", p, Variant { probe: true, owned: idx % 2 == 0, wrap: Wrap::None })
+        roundtrip_case(l, "roundtrip-probed", p, Variant { probe: true, reset: true, owned: idx % 2 == 0, wrap: Wrap::None })
     });
     ctx.require_hit("round-trip-equal");
     let _ = Tier::Quick;
